@@ -449,6 +449,19 @@ class CallMixin:
         self.assume(z3.ForAll([p_], z3.Implies(z3.And(0 <= p_, p_ < n), z3.Select(newarr, p_) == z3.Select(s.arr(t), p_)),
                               patterns=[z3.Select(s.arr(t), p_)]))
       return NONE
+    if name == 'extend':
+      # list.extend(iterable): the old elements followed by the new ones.  For a generator argument the elements are
+      # computed against the list as it was BEFORE the call (CPython evaluates it lazily while extending: a filter that
+      # looks at the list being extended may drop later duplicates) -- contracts must speak about membership only.
+      from engine.execcomp import Gen
+      o = args[0]
+      if isinstance(o, Gen):
+        o = self.comp_list(o)
+      if isinstance(o, PyTuple):
+        o = self.coerce(o, s) if o.items else V(s, s.empty())
+      o = self.coerce(o, s)
+      self.store_back(bm.lval, V(s, s.concat(t, o.t)))
+      return NONE
     if name == 'pop' and not args:
       n = s.len(t)
       self.oblige_or_raise(n > 0, 'IndexError', 'pop from non-empty list', node)
